@@ -1,19 +1,24 @@
 """C15 — HTTP status codes and body shapes follow the mapping (kernels).
 
-(a) `_set_http_status` on every HTTPStatus member the server package names in its source (AST
-    scan of the live package): 500 becomes "200" + X-VGI-RPC-Error, nothing else is a 5xx.
+(a) `_set_http_status` on every HTTPStatus member the SERVER package (vgi_rpc/http/server) names in
+    its source (AST scan of the live package): 500 reaches the client as 200 + X-VGI-RPC-Error, a
+    2xx/4xx as itself, a plain 200 without marker.  Replay: a real falcon.Response.
 (b) the three RPC resources' real `on_post` + the real `_HttpRpcApp._resolve_method` +
     `_check_content_type` + the real `_run_unary_sync` / `_run_stream_init_sync` up to the end of
     request validation, with EVERY validation step able to refuse: `_read_request`,
     `_deserialize_params`, `_validate_call_signature`, `_validate_params` are re-globalised stubs of
     which a *symbolic* one raises a *symbolic* member of {ArrowInvalid, TypeError, StopIteration,
-    RpcError, VersionError, KeyError, ValueError, OSError, RuntimeError} (or the read returns a
-    mismatching method name), and the application protocol-version gate is the REAL
-    `RpcServer._check_protocol_version` on a server that declares a version or not, with the
-    client's version absent / incompatible / malformed / compatible.  Wrong content type => 415,
-    unknown method => 404, route/method-kind mismatch, validation classes and version rejections
-    => 400, anything else => 500 surfaced as 200 + marker header, never a bare 5xx and never an
-    exception escaping the resource; every one of these responses is built by `_set_error_response`.
+    RpcError, VersionError, KeyError, ValueError, OSError, RuntimeError, the wire layer's
+    request-framing marker (an OSError subclass)} (or the read returns a mismatching method name),
+    and the application protocol-version gate is the REAL `RpcServer._check_protocol_version` on a
+    server that declares a version or not, with the client's version absent / incompatible /
+    malformed / compatible.  Wrong content type => 415 (body shape free: 415 is exempt), unknown
+    method => 404, route/method-kind mismatch, name mismatch, version rejection => 400; a step
+    raising a class its contract attributes to the caller (table `_MUST_400_*`) => 400; any other
+    class => 400 or 200 + marker (the property does not say which); never a bare 5xx, never an
+    exception escaping the resource (a falcon.HTTPError is a response: it is rendered by the real
+    app's error handling and judged like any other answer); every non-415 answer has an Arrow body.
+    Replays: real requests through make_sync_client on real apps (the "real request battery").
 (c) `_MaxRequestBytesMiddleware.process_request`: 413 for every non-exempt request that declares or
     delivers more than max_request_bytes, and never for a body within the cap.
 (d) `_set_error_response` (no stubs) yields a decodable Arrow IPC body for every status/exception
@@ -23,13 +28,18 @@
     the classes pyarrow and the wire layer raise for client bytes (ArrowInvalid, OSError,
     StopIteration, EOFError, TypeError, KeyError, ValueError, IndexError, RpcError, VersionError,
     RuntimeError, NotImplementedError) or yields a batch without state token: nothing escapes the
-    resource, the answer is a 400 Arrow error response.  Replay: real bytes on the real app.
+    resource, the answer is a 400 Arrow error response.  Replay: real bytes on the real app only.
 (f) every `raise falcon.X(...)` site of the live _middleware.py (AST scan; a site without a scenario
     is a harness error): the REAL middleware instance of a REAL `make_wsgi_app` runs on a real
     `falcon.Request`, what it raises goes through the app's own `_handle_exception` (the serializer
     make_wsgi_app installed): status per table; body a decodable Arrow IPC EXCEPTION batch unless the
     status is 401 or 415 (503 = authority unreachable, not client-controlled, not asserted).
     Replay: the same request through make_sync_client.
+(g) unary / init routes: the REAL `_read_request` (inside the real dispatchers and resources) over a
+    `pyarrow.ipc` whose open / first read / drain raises a *symbolic* member of {ArrowInvalid,
+    OSError (= ArrowIOError: bad message header, truncated body), StopIteration}: malformed IPC is
+    400 whatever class pyarrow uses.  Replay: a bad header, EVERY proper prefix of a well-formed
+    request, garbage, a schema-only stream on the real app.
 """
 
 from __future__ import annotations
@@ -70,19 +80,23 @@ ENCODED = [
 _LM = pick(3, 5)
 BOUNDS = (
     "content type = exact Arrow type | absent | any string len<=%d; method = a unary name | a stream name | any string len<=%d; route in {unary, init, exchange}; "
-    "failing validation step in {read, name, version gate (real), deserialize, signature, params} x 9 exception classes x 5 protocol-version situations; max-bytes: path = prefix + '/' + any string len<=%d, unbounded ints" % (_LM, _LM, pick(8, 10))
+    "failing validation step in {read, name, version gate (real), deserialize, signature, params} x 9-10 exception classes x 5 protocol-version situations; "
+    "request decoding (g): {unary, init} x {open, read, drain} x {ArrowInvalid, OSError, StopIteration}; max-bytes: path = prefix + '/' + any string len<=%d, ints 0..%d" % (_LM, _LM, pick(8, 10), pick(999, 99999))
 )
 OUTSIDE = (
-    "Falcon routing and Falcon's own error responses (405, 404 sink); which exception class pyarrow raises for which malformed bytes (the classes are a symbolic dimension; "
-    "that unary/init answer 200+marker rather than 400 to an OSError-class 'Invalid IPC message' is observed, not asserted: there OSError may also be a storage failure); "
-    "the exchange dispatcher after request reading (tokens, see C12/C13); WHEN the compression middleware raises (C17/C19) — how what it raises is rendered is inside; 401 body shape (C21); everything after request validation (the method call itself); the combined request space"
+    "Falcon routing and Falcon's own error responses (405, 404 sink); which exception class pyarrow raises for which malformed bytes beyond the three of (g) (the classes are a symbolic dimension); "
+    "whether an exception class that no step's contract attributes to the caller (plain OSError / RuntimeError while reading — possibly a storage failure of an external location —, RuntimeError from a check, ...) is answered 400 or 200+marker, "
+    "and which refusal wins when a version rejection and a later step's failure coincide: both answers are admitted; other 5xx HTTPStatus members the server package might name (none today); the upload-url route; "
+    "the exchange dispatcher after request reading (tokens, see C12/C13); WHEN the compression middleware raises (C17/C19) — how what it raises is rendered is inside; 401 body shape (C21); how the max-bytes middleware measures a chunked body (C17); "
+    "everything after request validation (the method call itself; only the replays' battery touches a failing / succeeding call); the combined request space"
 )
 ASSUMPTIONS = [
     "_read_request / _deserialize_params / _validate_call_signature / _validate_params := one chosen step raises the chosen exception class (or the read returns ('other-name', {})) — "
-    "which class these raise for which bytes/values is not decided here (C05/C06); that whatever they raise is mapped per the table IS; the protocol-version gate is the real one",
-    "_set_error_response in (b) := recorder that still calls the real _set_http_status (the real one serialises through pyarrow; it is exercised un-stubbed in (d))",
+    "which class these raise for which bytes/values is not decided here (C05/C06; (g) decides it for pyarrow's three decoder classes through the real _read_request); that whatever they raise is mapped per the table IS; the protocol-version gate is the real one",
+    "classes that MUST be 400: read {ArrowInvalid, StopIteration, RpcError, VersionError, request-framing marker}, deserialize {ArrowInvalid, TypeError, KeyError, ValueError}, signature/params {TypeError} — from the property text and the steps' documented Raises:, not from the dispatcher's except clause",
+    "_set_error_response in (b)/(e)/(g) := recorder that still calls the real _set_http_status (the real one serialises through pyarrow; it is exercised un-stubbed in (d)); a response built any other way must carry a really decodable Arrow error stream",
     "server.methods := linear-scan mapping with dict semantics (a symbolic key in a real dict realises)",
-    "falcon Request/Response := attribute bags with the attributes the kernels touch",
+    "falcon Request/Response := attribute bags with the attributes the kernels touch (anything else => HarnessModelError => INCONCLUSIVE)",
 ]
 
 # ---------------------------------------------------------------------------
@@ -92,8 +106,10 @@ ASSUMPTIONS = [
 
 def _statuses_in_package() -> list[HTTPStatus]:
     out: set[HTTPStatus] = set()
+    # the SERVER package only (vgi_rpc/http/server): statuses the client half names (retry sets,
+    # proxy errors) are never handed to _set_http_status
     root = os.path.dirname(inspect.getsourcefile(_responses) or "")
-    for path in glob.glob(os.path.join(os.path.dirname(root), "**", "*.py"), recursive=True):
+    for path in glob.glob(os.path.join(root, "**", "*.py"), recursive=True):
         try:
             tree = ast.parse(open(path).read())
         except (OSError, SyntaxError):
@@ -130,11 +146,51 @@ class _Resp:
         self.cookies.append(a)
 
 
+    def __getattr__(self, name: str):
+        raise HarnessModelError(f"falcon.Response.{name} is not modelled by the attribute bag")
+
+
+def _code(status) -> int:  # noqa: ANN001
+    """Numeric status of whatever Falcon accepts as `resp.status` (int, HTTPStatus, '400', '400 Bad Request')."""
+    if isinstance(status, int):
+        return int(status)
+    return int(str(status)[:3])
+
+
+def _marked(resp: _Resp) -> bool:
+    return any(str(k).lower() == RPC_ERROR_HEADER.lower() and v == "true" for k, v in resp.headers)
+
+
 def _bare_5xx(resp: _Resp) -> bool:
-    return str(resp.status)[:1] == "5"
+    return _code(resp.status) >= 500
 
 
-@cond(q=20, t=40, encoded=[_responses._set_http_status], bound="every HTTPStatus member named in vgi_rpc/http/**/*.py (%d of them)" % _NSTAT)
+def _status_verdict(st: HTTPStatus, code: int, marked: bool) -> str | None:
+    """Property level only: a 500 reaches the client as 200 + marker (never bare); a 2xx/4xx the
+    server decided on is the status the client sees; a plain 200 carries no error marker.  What
+    other 5xx members the package may name (none today) is not judged here: whether
+    client-controlled input can reach them is the business of the other items."""
+    if st == HTTPStatus.INTERNAL_SERVER_ERROR:
+        return None if (code == 200 and marked) else f"_set_http_status(500) gives HTTP {code}, marker header {marked}: the mapping requires 200 + {RPC_ERROR_HEADER}: true"
+    if st.value >= 500:
+        return None
+    if code != st.value:
+        return f"_set_http_status({st.value}) gives HTTP {code}"
+    if st == HTTPStatus.OK and marked:
+        return f"_set_http_status(200) sets {RPC_ERROR_HEADER} although nothing failed"
+    return None
+
+
+def _replay_status(a: dict) -> str | None:
+    st = _STATUSES[a["i"]]
+    resp = falcon.Response()
+    _responses._set_http_status(resp, st)
+    return _status_verdict(st, resp.status_code, resp.get_header(RPC_ERROR_HEADER) == "true")
+
+
+@cond(q=20, t=40, encoded=[_responses._set_http_status], stubs=["falcon Response := attribute bag"],
+      bound="every HTTPStatus member named in vgi_rpc/http/server/**/*.py (%d of them)" % _NSTAT,
+      replay=_replay_status, signature=lambda a, c: "C15:set-http-status:wrong-status")
 def set_http_status_never_bare_5xx(i: int) -> bool:
     """
     pre: 0 <= i < _NSTAT
@@ -143,11 +199,7 @@ def set_http_status_never_bare_5xx(i: int) -> bool:
     st = _STATUSES[i]
     resp = _Resp()
     _responses._set_http_status(resp, st)  # type: ignore[arg-type]
-    if st == HTTPStatus.INTERNAL_SERVER_ERROR:
-        return resp.status == "200" and (RPC_ERROR_HEADER, "true") in resp.headers
-    if _bare_5xx(resp):
-        return False  # another 5xx constant in the package would reach the client bare
-    return resp.status == str(st.value) and not resp.headers
+    return _status_verdict(st, _code(resp.status), _marked(resp)) is None
 
 
 # ---------------------------------------------------------------------------
@@ -201,9 +253,27 @@ class _Server:
         raise HarnessModelError(f"server.{name}: dispatch went past request validation")
 
 
-_EXC = [pa.ArrowInvalid, TypeError, StopIteration, RpcError, VersionError, KeyError, ValueError, OSError, RuntimeError]  # a list: CrossHair cannot exhaust tuple[symbolic int]
+import vgi_rpc.rpc as _rpc_pkg  # noqa: E402
+
+# The wire layer's marker for "pyarrow reported an I/O-class error while decoding the request's OWN
+# bytes" (a live class, not a copy; absent on trees that predate it — item (g) then still decides
+# the behaviour it stands for, with real truncated bytes in its replay).
+_FRAMING = getattr(_rpc_pkg, "_RequestFramingError", None)
+_EXC = [pa.ArrowInvalid, TypeError, StopIteration, RpcError, VersionError, KeyError, ValueError, OSError, RuntimeError] + ([_FRAMING] if _FRAMING is not None else [])  # a list: CrossHair cannot exhaust tuple[symbolic int]
 _NEXC = len(_EXC)
-_BAD_REQUEST_CLASSES = (pa.ArrowInvalid, TypeError, StopIteration, RpcError, VersionError)
+# Which classes MUST be answered 400 when a given validation step raises them — taken from the
+# property text and the documented contracts of the steps, not from the dispatcher's except clause:
+#   read:         malformed IPC (ArrowInvalid; the framing marker), a stream that ends before its
+#                 batch (StopIteration), missing/invalid metadata (RpcError, `_read_request` Raises:),
+#                 request-version rejection (VersionError, `_read_request` Raises:)
+#   deserialize:  caller-value conversion failures = parameter rejections (ArrowInvalid, TypeError, KeyError, ValueError)
+#   signature / parameter validation: TypeError (their documented refusal)
+# Every other class at a step (a plain OSError while reading may be a storage failure of an
+# external location, a RuntimeError anything) may be answered 400 or 200 + marker: the property
+# does not say, and the harness does not either.  Never a bare 5xx, never an escaping exception.
+_MUST_400_READ = (pa.ArrowInvalid, StopIteration, RpcError, VersionError) + ((_FRAMING,) if _FRAMING is not None else ())
+_MUST_400_DESER = (pa.ArrowInvalid, TypeError, KeyError, ValueError)
+_MUST_400_CHECKS = (TypeError,)
 _OUT = {"kind": 0}
 
 
@@ -238,22 +308,24 @@ def _maybe_raise(step: int) -> None:
         raise _make_exc(_OUT["kind"])
 
 
-def _stub_read_request(stream, ipc_validation=None, external_config=None):  # noqa: ANN001, ANN201
+# tolerant signatures: which arguments the dispatcher hands to a step is not part of the claim (a
+# TypeError from a stub's own signature would land in the dispatcher's `except TypeError` => 400)
+def _stub_read_request(*a, **k):  # noqa: ANN002, ANN003, ANN201
     _maybe_raise(_STEP_READ)
     if _OUT["step"] == _STEP_NAME:
         return ("other-name", {})
     return (_OUT["method"], {})
 
 
-def _stub_deserialize_params(kwargs, param_types, ipc_validation=None):  # noqa: ANN001, ANN201
+def _stub_deserialize_params(*a, **k):  # noqa: ANN002, ANN003, ANN201
     _maybe_raise(_STEP_DESER)
 
 
-def _stub_validate_call_signature(name, kwargs, param_types, param_defaults, params_schema):  # noqa: ANN001, ANN201
+def _stub_validate_call_signature(*a, **k):  # noqa: ANN002, ANN003, ANN201
     _maybe_raise(_STEP_SIG)
 
 
-def _stub_validate_params(name, kwargs, param_types):  # noqa: ANN001, ANN201
+def _stub_validate_params(*a, **k):  # noqa: ANN002, ANN003, ANN201
     _maybe_raise(_STEP_PARAMS)
 
 
@@ -284,14 +356,18 @@ class _FakeApp:
         # the exchange dispatcher itself is outside this claim: it reports its refusals like this
         raise _RpcHttpError(_make_exc(_OUT["kind"] % _NEXC), status_code=(HTTPStatus.BAD_REQUEST if _OUT["kind"] % 2 else HTTPStatus.INTERNAL_SERVER_ERROR))
 
+    def __getattr__(self, name: str):
+        raise HarnessModelError(f"app.{name} is not modelled")
+
 
 _REC: list = []
+_REC_BODY = "arrow-error-stream"
 
 
-def _recording_set_error_response(resp, exc, *, status_code=HTTPStatus.BAD_REQUEST, schema=None, server_id=None):  # noqa: ANN001, ANN201
+def _recording_set_error_response(resp, exc, *a, status_code=HTTPStatus.BAD_REQUEST, **k):  # noqa: ANN001, ANN002, ANN003, ANN201
     _REC.append((exc, status_code))
     resp.content_type = _ARROW_CONTENT_TYPE
-    resp.stream = "arrow-error-stream"
+    resp.stream = _REC_BODY
     _responses._set_http_status(resp, status_code)
 
 
@@ -310,32 +386,44 @@ class _Req:
         self.content_type = content_type
         self.context = types.SimpleNamespace()
 
+    def __getattr__(self, name: str):
+        raise HarnessModelError(f"falcon.Request.{name} is not modelled by the attribute bag")
+
 
 class _Holder:
     _app = _FakeApp()
 
 
-def _expected(route: int, ct_ok: bool, mkind: int, step: int, kind: int, ver: int) -> int:
-    """The mapping table of the property, on the abstract request."""
+_EITHER = (400, 500)  # 500 stands for "200 + X-VGI-RPC-Error: true"
+
+
+def _allowed(route: int, ct_ok: bool, mkind: int, step: int, kind: int, ver: int) -> tuple:
+    """The mapping table of the property, on the abstract request: the set of admissible answers
+    (500 = 200 + marker).  Where the property is silent (which of two simultaneous refusals wins;
+    an exception class no contract attributes to the caller) both answers are admitted."""
     if not ct_ok:
-        return 415
+        return (415,)
     if mkind == 2:
-        return 404
+        return (404,)
     is_stream = mkind == 1
     if (route == 0) == is_stream:
-        return 400  # stream method on the unary route / unary method on a stream route
+        return (400,)  # stream method on the unary route / unary method on a stream route
     if route == 2:
-        return 400 if kind % 2 else 500
-    by_class = 400 if issubclass(_exc_class(kind), _BAD_REQUEST_CLASSES) else 500
-    if step == _STEP_READ:
-        return by_class
+        return (400,) if kind % 2 else (500,)  # what the (modelled) exchange dispatcher decided must be what the client sees
     if step == _STEP_NAME:
-        return 400  # method-name mismatch between path and IPC metadata
-    if ver == 1 or ver == 2 or ver == 3:
-        return 400  # version rejection: absent / incompatible / malformed client protocol_version
-    if step == _STEP_DESER and (_exc_class(kind) is KeyError or _exc_class(kind) is ValueError):
-        return 400  # caller-value conversion failures are malformed parameters
-    return by_class
+        return (400,)  # method-name mismatch between path and IPC metadata
+    if step == _STEP_NONE:
+        return (400,)  # (pre:) only the version gate refuses: absent / incompatible / malformed client protocol_version
+    cls = _exc_class(kind)
+    if step == _STEP_READ:
+        must = issubclass(cls, _MUST_400_READ)
+    elif step == _STEP_DESER:
+        must = issubclass(cls, _MUST_400_DESER)
+    else:
+        must = issubclass(cls, _MUST_400_CHECKS)
+    # a version rejection AND a failing later step: 400 when the later step's class is a
+    # caller error as well; otherwise whichever the dispatcher meets first (order is not stated)
+    return (400,) if must else _EITHER
 
 
 def _legacy(outcome: int) -> tuple[int, int]:
@@ -355,7 +443,7 @@ def _setup(method, step: int, kind: int, ver: int):  # noqa: ANN001, ANN201
     return _current_request_metadata.set(None if raw is None else {PROTOCOL_VERSION_KEY: raw})
 
 
-_B_STUBS = ["_read_request / _deserialize_params / _validate_call_signature / _validate_params := the chosen one raises a chosen exception class (or the read returns a mismatching name); the protocol-version gate is the real RpcServer._check_protocol_version", "_set_error_response := recorder + real _set_http_status", "server.methods := linear-scan mapping", "falcon Request/Response := attribute bags"]
+_B_STUBS = ["_read_request / _deserialize_params / _validate_call_signature / _validate_params := the chosen one raises a chosen exception class (or the read returns a mismatching name); the protocol-version gate is the real RpcServer._check_protocol_version", "exchange dispatcher (route 2) := raises _RpcHttpError with a chosen 400/500", "_set_error_response := recorder + real _set_http_status", "server.methods := linear-scan mapping", "falcon Request/Response := attribute bags"]
 _B_ENC = [_resources._RpcResource.on_post, _resources._StreamInitResource.on_post, _resources._ExchangeResource.on_post, _app._HttpRpcApp._resolve_method, _responses._check_content_type, _app_unary._run_unary_sync, _app_stream._run_stream_init_sync, _responses._set_http_status]
 
 
@@ -364,77 +452,86 @@ def _drive(route: int, content_type, method, mkind: int, step: int, kind: int, v
     tok = _setup(method, step, kind, ver)
     del _REC[:]
     req, resp = _Req(content_type), _Resp()
+    raised = None
     try:
         _POSTS[route](_Holder(), req, resp, method)
+    except HarnessModelError:
+        raise
+    except falcon.HTTPError as e:
+        raised = e  # a Falcon HTTP error is a response: the app's own error handling renders it
     except Exception:  # noqa: BLE001
-        return False  # anything escaping the resource becomes Falcon's bare 500 with a JSON body
+        return False  # anything else escaping the resource becomes Falcon's bare 500 with a JSON body
     finally:
         _current_request_metadata.reset(tok)
         _Server._protocol_version_parts = None
-    want = _expected(route, ct_ok, mkind, step, kind, ver)
-    if _bare_5xx(resp):
-        return False
-    if len(_REC) != 1:
-        return False  # each of these refusals must be an Arrow error response built by _set_error_response
-    exc, code = _REC[0]
-    if code.value != want:
-        return False
-    if want == 500:
-        ok = resp.status == "200" and (RPC_ERROR_HEADER, "true") in resp.headers
+    allowed = _allowed(route, ct_ok, mkind, step, kind, ver)
+    if raised is not None:
+        code, marked, arrow = _rendered_by_app(raised)
     else:
-        ok = resp.status == str(want) and not resp.headers
-    if not ok or resp.content_type != _ARROW_CONTENT_TYPE:
-        return False
-    if want == 404 and not isinstance(exc, MethodNotImplementedError):
-        return False
-    return True
+        code, marked = _code(resp.status), _marked(resp)
+        arrow = resp.content_type == _ARROW_CONTENT_TYPE and _stub_body_ok(resp)
+    return _answer_verdict(code, marked, arrow, allowed) is None
 
 
-_REAL_POSTS = [reglobalize(r.on_post, _get_request_stream=_fake_stream) for r in (_resources._RpcResource, _resources._StreamInitResource, _resources._ExchangeResource)]
+def _answer_verdict(code: int, marked: bool, arrow: bool, allowed: tuple) -> str | None:
+    """One judgement for kernels and replays: the answer is one of the admitted ones, never a bare
+    5xx, and it carries a decodable Arrow error body unless it is a 415 (401/415 are exempt)."""
+    shown = 500 if (code == 200 and marked) else code
+    want = " or ".join("200 + marker" if w == 500 else str(w) for w in allowed)
+    if code >= 500:
+        return f"bare HTTP {code} (the mapping requires {want})"
+    if shown not in allowed:
+        return f"HTTP {'200 + marker' if shown == 500 else code}, the mapping requires {want}"
+    if shown == 200:
+        return None  # (admitted only where the request may be complete enough to be dispatched) a plain success
+    if shown != 415 and not arrow:
+        return f"HTTP {code} without a decodable Arrow IPC error body"
+    return None
+
+
+def _stub_body_ok(resp: _Resp) -> bool:
+    """The body the kernel's response carries: the recorder's placeholder (the real
+    `_set_error_response` is decided un-stubbed in (d)) or a real, decodable Arrow error stream."""
+    if resp.stream is _REC_BODY:
+        return len(_REC) >= 1
+    try:
+        data = resp.stream.read() if hasattr(resp.stream, "read") else resp.stream
+    except HarnessModelError:
+        raise
+    except Exception:  # noqa: BLE001
+        return False
+    return isinstance(data, (bytes, bytearray)) and _arrow_exception_body(bytes(data))
+
+
+def _rendered_by_app(err) -> tuple:  # noqa: ANN001
+    """(status, marker, decodable Arrow error body) of a falcon.HTTPError as the REAL app's own
+    error handling (`App._handle_exception` -> the serializer make_wsgi_app installed) renders it."""
+    req = falcon.Request(_ft.create_environ(method="POST", path="/" + _UNARY_NAME, headers=_ARROW_HDR))
+    resp = falcon.Response()
+    if not _APPS[0]._handle_exception(req, resp, err, {}):
+        raise HarnessModelError("the app did not handle a falcon.HTTPError")
+    data = resp.render_body() or b""
+    return resp.status_code, resp.get_header(RPC_ERROR_HEADER) == "true", (resp.content_type or "") == _ARROW_CONTENT_TYPE and _arrow_exception_body(data)
 
 
 _STEP_NAMES = ["reading the request", "the IPC method name differing from the path", "parameter deserialisation", "call-signature validation", "parameter validation", "no stubbed step"]
 _VER_NAMES = ["server declares no protocol_version", "client protocol_version absent", "client protocol_version 9.9.9 vs server 1.2.0", "client protocol_version malformed", "client protocol_version compatible"]
 
 
-def _replay_drive(route: int, content_type, method, mkind: int, step: int, kind: int, ver: int = 0) -> str | None:  # noqa: ANN001
-    """Same request on the real resource with the REAL _set_error_response (pyarrow), the real
-    version gate and a real falcon.Response; only the outcome of the stubbed step is injected."""
-    tok = _setup(method, step, kind, ver)
-    resp = falcon.Response()
-    what = f"{_STEP_NAMES[step]}" + (f" raises {_exc_class(kind).__name__}" if step not in (_STEP_NAME, _STEP_NONE) else "") + f", {_VER_NAMES[ver]}"
-    try:
-        _REAL_POSTS[route](_Holder(), _Req(content_type), resp, method)
-    except Exception as e:  # noqa: BLE001
-        return f"POST {method!r} on the {('unary', 'init', 'exchange')[route]} route ({what}): {type(e).__name__} escapes the resource — Falcon answers a bare 500 with a JSON body instead of an Arrow error response"
-    finally:
-        _current_request_metadata.reset(tok)
-        _Server._protocol_version_parts = None
-    want = _expected(route, content_type == _ARROW_CONTENT_TYPE, mkind, step, kind, ver)
-    status = str(resp.status)[:3]
-    marker = resp.get_header(RPC_ERROR_HEADER)
-    shown = ("200+marker" if (status == "200" and marker == "true") else status)
-    want_shown = "200+marker" if want == 500 else str(want)
-    body_ok = True
-    try:
-        pa.ipc.open_stream(resp.stream).read_next_batch_with_custom_metadata()
-    except Exception:  # noqa: BLE001
-        body_ok = False
-    if shown != want_shown or not body_ok:
-        return f"route {('unary', 'init', 'exchange')[route]}, Content-Type {content_type!r}, method {method!r}, {what}: HTTP {shown} (Arrow body decodable: {body_ok}), the mapping requires {want_shown}"
-    return None
+# Replays of (b): real requests through make_sync_client on REAL apps (section "real request
+# battery" below) judged by the property text; nothing of the kernel's stubs is involved.
 
 
 def _rp_ct(a: dict) -> str | None:
-    return _replay_drive(a["route"], None if a["absent"] else a["ct"], _STREAM_NAME if a["stream_method"] else _UNARY_NAME, 1 if a["stream_method"] else 0, *_legacy(a["outcome"]))
+    return _real_wrong_content_type(a["route"], None if a["absent"] else a["ct"], bool(a["stream_method"]))
 
 
 def _rp_404(a: dict) -> str | None:
-    return _replay_drive(a["route"], _ARROW_CONTENT_TYPE, a["mname"], 2, *_legacy(a["outcome"]))
+    return _real_unknown_method(a["route"], a["mname"])
 
 
 def _rp_ladder(a: dict) -> str | None:
-    return _replay_drive(a["route"], _ARROW_CONTENT_TYPE, _STREAM_NAME if a["stream_method"] else _UNARY_NAME, 1 if a["stream_method"] else 0, a["step"], a["kind"], a["ver"])
+    return _real_ladder(a["route"], bool(a["stream_method"]), a["step"], a["kind"], a["ver"])
 
 
 @cond(q=40, t=120, stubs=_B_STUBS, encoded=_B_ENC, bound="3 routes x {unary, stream} method x content type = None | any str len<=%d (request reading would fail with any of the 10 outcomes)" % _LM,
@@ -463,7 +560,7 @@ def unknown_method_is_404(route: int, mname: str, outcome: int) -> bool:
 
 
 @cond(q=60, t=120, stubs=_B_STUBS, encoded=_B_ENC,
-      bound="3 routes x {unary, stream} method x failing validation step in {read, name mismatch, deserialize, call signature, parameter validation, none} x 9 exception classes "
+      bound="3 routes x {unary, stream} method x failing validation step in {read, name mismatch, deserialize, call signature, parameter validation, none} x %d exception classes " % _NEXC +
             "x protocol version in {server undeclared, client absent, incompatible, malformed, compatible} (at least one step fails), correct content type",
       replay=_rp_ladder, signature=lambda a, c: "C15:request-validation:wrong-status")
 def request_validation_is_400_else_200_marker(route: int, stream_method: bool, step: int, kind: int, ver: int) -> bool:
@@ -474,7 +571,8 @@ def request_validation_is_400_else_200_marker(route: int, stream_method: bool, s
     """
     # every step of request validation is inside the claim: whichever step refuses the request —
     # including the (real) application protocol-version gate — the answer is a 400 Arrow error
-    # response for the validation classes, 200 + marker for anything else, never a bare 5xx.
+    # response for the classes the step's contract attributes to the caller, 400 or 200 + marker
+    # for anything else, never a bare 5xx, never an escaping exception (table: `_allowed`).
     return _drive(route, _ARROW_CONTENT_TYPE, _STREAM_NAME if stream_method else _UNARY_NAME, 1 if stream_method else 0, step, kind, ver)
 
 
@@ -499,6 +597,9 @@ class _BodyStream:
         k = self.n if size is None or size < 0 else min(self.n, size)
         return _Body(k)
 
+    def __getattr__(self, name: str):
+        raise HarnessModelError(f"bounded_stream.{name} is not modelled")
+
 
 class _Body:
     """The bytes read from the socket, reduced to what the middleware looks at: their number."""
@@ -509,6 +610,9 @@ class _Body:
     def __len__(self) -> int:
         return self.k
 
+    def __getattr__(self, name: str):
+        raise HarnessModelError(f"request body bytes: .{name} is not modelled (only their number is)")
+
 
 class _MReq:
     def __init__(self, path: str, content_length, n: int) -> None:  # noqa: ANN001
@@ -516,6 +620,9 @@ class _MReq:
         self.content_length = content_length
         self.bounded_stream = _BodyStream(n)
         self.context = types.SimpleNamespace()
+
+    def __getattr__(self, name: str):
+        raise HarnessModelError(f"falcon.Request.{name} is not modelled by the attribute bag")
 
 
 _PREFIXES = ["", "/vgi"]
@@ -573,6 +680,8 @@ def oversize_request_is_413(pfx: int, tail: str, has_cl: bool, cl: int, n: int, 
         refused = False
     except falcon.HTTPContentTooLarge:
         refused = True
+    except HarnessModelError:
+        raise
     except Exception:  # noqa: BLE001
         return False
     exempt = path == health or path.startswith(health + "/")
@@ -584,12 +693,9 @@ def oversize_request_is_413(pfx: int, tail: str, has_cl: bool, cl: int, n: int, 
         return False
     if (not exempt) and size > cap and not refused:
         return False
-    if refused or exempt:
-        return True
-    if has_cl:
-        return not hasattr(req.context, "capped_request_body")
-    # chunked: read once with a one-byte sentinel, body handed on through the context
-    return req.bounded_stream.asked == [cap + 1] and len(req.context.capped_request_body) == n and n <= cap
+    # How the middleware measures a body without Content-Length (how many reads, of what size,
+    # where it leaves the bytes it pulled) is its own business: C17 bounds the read sizes.
+    return True
 
 
 # ---------------------------------------------------------------------------
@@ -615,7 +721,7 @@ def error_response_body_is_decodable_arrow(si: int, ei: int) -> bool:
     _responses._set_error_response(resp, exc, status_code=st, server_id="srv")  # type: ignore[arg-type]
     if _bare_5xx(resp) or resp.content_type != _ARROW_CONTENT_TYPE:
         return False
-    if (st == HTTPStatus.INTERNAL_SERVER_ERROR) != ((RPC_ERROR_HEADER, "true") in resp.headers):
+    if (st == HTTPStatus.INTERNAL_SERVER_ERROR) != _marked(resp):
         return False
     reader = pa.ipc.open_stream(resp.stream)
     batch, md = reader.read_next_batch_with_custom_metadata()
@@ -655,13 +761,16 @@ class _FakeIpcReader:
     def read_next_batch(self):  # noqa: ANN201
         return self.read_next_batch_with_custom_metadata()[0]
 
+    def __getattr__(self, name: str):
+        raise HarnessModelError(f"RecordBatchStreamReader.{name} is not modelled")
+
 
 class _FakeIpc:
     """pyarrow.ipc as seen by the exchange dispatcher: opening or reading the client's bytes fails
     with the chosen class, or yields a batch that carries no state token."""
 
     @staticmethod
-    def open_stream(stream):  # noqa: ANN001, ANN205
+    def open_stream(*a, **k):  # noqa: ANN002, ANN003, ANN205
         if _XOUT["stage"] == 0:
             raise _wire_exc(_XOUT["kind"])
         return _FakeIpcReader()
@@ -683,36 +792,13 @@ class _XHolder:
 
 
 def _replay_exchange(a: dict) -> str | None:
-    """Real app, real bytes: bodies for which pyarrow raises the class in question (where one is known)."""
+    """Real app, real bytes only: every malformed exchange body for which a real byte string is
+    known (garbage, bad message header, every proper prefix of a well-formed exchange request, a
+    stream that ends after its schema, a well-formed batch without state token), the ones pyarrow
+    answers with the counterexample's class first.  For a class no real bytes are known for, a
+    kernel-only counterexample stays INCONCLUSIVE (None)."""
     cls = _WIRE_EXC[a["kind"]] if a["stage"] < 2 else None
-    bodies = {OSError: bytes.fromhex("fffffffffffffffe"), pa.ArrowInvalid: b"not an ipc stream at all....."}
-    body = bodies.get(cls) if cls is not None else None
-    if body is None:
-        k = _replay_exchange_kernel(a)
-        if k and a["stage"] < 2:
-            e2e = _replay_exchange({"stage": 0, "kind": _WIRE_EXC.index(OSError)})
-            if e2e:
-                k += " || same site, end to end on the real app: " + e2e
-        return k
-    client, _ran = _real_client()
-    r = client.post("http://x/fed/exchange", content=body, headers={"Content-Type": _ARROW_CONTENT_TYPE})
-    ctype = r.headers.get("content-type", "")
-    if r.status_code >= 500 or ctype != _ARROW_CONTENT_TYPE or r.status_code != 400:
-        return f"POST /fed/exchange with the {len(body)}-byte body {body[:12].hex()} (pyarrow raises {cls.__name__}) answers HTTP {r.status_code} {ctype} {r.content[:60]!r}; the mapping requires 400 with an Arrow error body"
-    return None
-
-
-def _replay_exchange_kernel(a: dict) -> str | None:
-    _XOUT["stage"], _XOUT["kind"] = a["stage"], a["kind"]
-    resp = falcon.Response()
-    post = reglobalize(_resources._ExchangeResource.on_post, _get_request_stream=_fake_stream)
-    try:
-        post(_XHolder(), _Req(_ARROW_CONTENT_TYPE), resp, _STREAM_NAME)
-    except Exception as e:  # noqa: BLE001
-        return f"exchange route, {('opening', 'reading')[a['stage'] % 2]} the request raises {type(e).__name__}: it escapes the resource (bare 500, JSON body)"
-    if str(resp.status)[:3] != "400":
-        return f"exchange route, request reading raises {_WIRE_EXC[a['kind']].__name__}: HTTP {resp.status}, the mapping requires 400"
-    return None
+    return _real_malformed_bodies(2, cls, no_token=(a["stage"] >= 2))
 
 
 _X_POST = reglobalize(_resources._ExchangeResource.on_post, _set_error_response=_recording_set_error_response, _get_request_stream=_fake_stream)
@@ -734,11 +820,15 @@ def exchange_request_reading_is_400_never_escapes(stage: int, kind: int) -> bool
     resp = _Resp()
     try:
         _X_POST(_XHolder(), _Req(_ARROW_CONTENT_TYPE), resp, _STREAM_NAME)
+    except HarnessModelError:
+        raise
+    except falcon.HTTPError as e:
+        code, marked, arrow = _rendered_by_app(e)
+        return _answer_verdict(code, marked, arrow, (400,)) is None
     except Exception:  # noqa: BLE001
         return False  # escapes the resource: Falcon's bare 500 + JSON
-    if _bare_5xx(resp) or len(_REC) != 1:
-        return False
-    return _REC[0][1] == HTTPStatus.BAD_REQUEST and resp.status == "400" and resp.content_type == _ARROW_CONTENT_TYPE
+    arrow = resp.content_type == _ARROW_CONTENT_TYPE and _stub_body_ok(resp)
+    return _answer_verdict(_code(resp.status), _marked(resp), arrow, (400,)) is None
 
 
 # ---------------------------------------------------------------------------
@@ -915,3 +1005,388 @@ def middleware_errors_are_rendered_as_arrow(si: int, ri: int) -> bool:
             if si == s and ri == r:
                 return _verdict_rendering(s, r) is None
     return False
+
+
+# ---------------------------------------------------------------------------
+# real request battery: the replays of (b), (e), (g) — real bytes, real apps, property-level verdicts
+# ---------------------------------------------------------------------------
+
+import enum  # noqa: E402
+from typing import ClassVar  # noqa: E402
+
+from vgi_rpc.metadata import REQUEST_VERSION, REQUEST_VERSION_KEY, RPC_METHOD_KEY, STATE_KEY  # noqa: E402
+
+
+class _Color(enum.Enum):
+    RED = "red"
+    GREEN = "green"
+
+
+class _BSvc(Protocol):
+    def add(self, a: int, color: _Color) -> int: ...
+
+    def bad(self, a: int, color: _Color) -> int: ...
+
+    def fed(self, a: int, color: _Color) -> Stream[_EchoState]: ...
+
+    def fedbad(self, a: int, color: _Color) -> Stream[_EchoState]: ...
+
+
+class _BVSvc(Protocol):
+    protocol_version: ClassVar[str] = "1.2.0"
+
+    def add(self, a: int, color: _Color) -> int: ...
+
+    def bad(self, a: int, color: _Color) -> int: ...
+
+    def fed(self, a: int, color: _Color) -> Stream[_EchoState]: ...
+
+    def fedbad(self, a: int, color: _Color) -> Stream[_EchoState]: ...
+
+
+class _BImpl:
+    def add(self, a: int, color: _Color) -> int:
+        return a
+
+    def bad(self, a: int, color: _Color) -> int:
+        raise RuntimeError("the method itself fails")
+
+    def fed(self, a: int, color: _Color) -> Stream[_EchoState]:
+        sch = pa.schema([pa.field("v", pa.int64())])
+        return Stream(output_schema=sch, state=_EchoState(), input_schema=sch)
+
+
+    def fedbad(self, a: int, color: _Color) -> Stream[_EchoState]:
+        raise RuntimeError("the method itself fails")
+
+
+_BATTERY: dict = {}
+
+
+def _battery_client(versioned: bool):  # noqa: ANN201
+    """(server, client) of a real make_sync_client app; built on first use (replays only)."""
+    if versioned not in _BATTERY:
+        with warnings.catch_warnings():
+            warnings.simplefilter("ignore")
+            srv = RpcServer(_BVSvc if versioned else _BSvc, _BImpl())
+            _BATTERY[versioned] = (srv, make_sync_client(srv, token_key=b"k" * 32))
+    return _BATTERY[versioned]
+
+
+def _wire_request(server, method: str, *, md_method="=", req_version=REQUEST_VERSION, proto=None, member: str = "RED", a=1, drop: str = "", extra: bool = False) -> bytes:  # noqa: ANN001
+    """A request for `method(a, color)` on the method's own params schema, with the chosen defect."""
+    schema = server.methods[method].params_schema
+    arrays, fields = [], []
+    for f in schema:
+        if f.name == drop:
+            continue
+        if f.name == "color":
+            arr = pa.array([member], type=pa.string())
+            if pa.types.is_dictionary(f.type):
+                arr = arr.dictionary_encode().cast(f.type)
+            else:
+                arr = arr.cast(f.type)
+        else:
+            arr = pa.array([a], type=f.type)
+            f = f.with_nullable(True) if a is None else f
+        arrays.append(arr)
+        fields.append(f)
+    if extra:
+        arrays.append(pa.array([7], type=pa.int64()))
+        fields.append(pa.field("zz_unexpected", pa.int64()))
+    sch = pa.schema(fields)
+    md: dict = {}
+    if md_method is not None:
+        md[RPC_METHOD_KEY] = (method if md_method == "=" else md_method).encode()
+    if req_version is not None:
+        md[REQUEST_VERSION_KEY] = req_version
+    if proto is not None:
+        md[PROTOCOL_VERSION_KEY] = proto
+    buf = BytesIO()
+    with pa.ipc.new_stream(buf, sch) as w:
+        w.write_batch(pa.RecordBatch.from_arrays(arrays, schema=sch), custom_metadata=pa.KeyValueMetadata(md) if md else None)
+    return buf.getvalue()
+
+
+def _schema_only(server, method: str) -> bytes:  # noqa: ANN001
+    buf = BytesIO()
+    with pa.ipc.new_stream(buf, server.methods[method].params_schema):
+        pass
+    return buf.getvalue()
+
+
+_GARBAGE = b"not an ipc stream at all....."
+_BAD_HEADER = bytes.fromhex("fffffffffffffffe")  # "Invalid IPC message: negative metadata length" (ArrowIOError = OSError)
+
+
+def _post_real(client, path: str, body: bytes, ctype=_ARROW_CONTENT_TYPE):  # noqa: ANN001, ANN201
+    hdrs = {} if ctype is None else {"Content-Type": ctype}
+    return client.post("http://x" + path, content=body, headers=hdrs)
+
+
+def _judge_real(client, path: str, body: bytes, want, what: str, ctype=_ARROW_CONTENT_TYPE) -> str | None:  # noqa: ANN001
+    """`want`: a tuple of admitted answers (as in `_allowed`), or "ok" (200, no marker)."""
+    r = _post_real(client, path, body, ctype)
+    marked = r.headers.get(RPC_ERROR_HEADER.lower()) == "true"  # the test client's header map is a plain lower-cased dict
+    arrow = r.headers.get("content-type", "") == _ARROW_CONTENT_TYPE
+    if want == "ok":
+        if r.status_code == 200 and not marked:
+            return None
+        return f"POST {path} with {what}: HTTP {r.status_code}{' + marker' if marked else ''}; a well-formed call that succeeds is a plain 200"
+    v = _answer_verdict(r.status_code, marked, arrow and _arrow_exception_body(r.content), want)
+    return None if v is None else f"POST {path} with {what} ({len(body)} body bytes): {v} — {r.headers.get('content-type', '')} {r.content[:50]!r}"
+
+
+def _paths(route: int, method: str) -> str:
+    return "/" + method + ("", "/init", "/exchange")[route]
+
+
+def _exchange_request(no_token: bool) -> bytes:
+    """A well-formed exchange input batch for `fed` (state token absent, or one nobody issued)."""
+    sch = pa.schema([pa.field("v", pa.int64())])
+    md = None if no_token else pa.KeyValueMetadata({STATE_KEY: b"\x00" * 48})
+    buf = BytesIO()
+    with pa.ipc.new_stream(buf, sch) as w:
+        w.write_batch(pa.RecordBatch.from_pydict({"v": [1]}, schema=sch), custom_metadata=md)
+    return buf.getvalue()
+
+
+def _real_malformed_bodies(route: int, cls=None, no_token: bool = False) -> str | None:  # noqa: ANN001
+    """Malformed IPC on a real route: every such body must be answered 400 + Arrow error body.
+    `cls`: the class of the counterexample — the bodies pyarrow answers with it come first."""
+    server, client = _battery_client(False)
+    method = _UNARY_NAME if route == 0 else _STREAM_NAME
+    path = _paths(route, method)
+    valid = _exchange_request(no_token=False) if route == 2 else _wire_request(server, method)
+    groups = [
+        (OSError, [(_BAD_HEADER, "a bad IPC message header (pyarrow: OSError)")] + [(valid[:n], f"a well-formed request cut after {n} of {len(valid)} bytes") for n in range(len(valid))]),  # cut inside / before the end-of-stream marker
+        (pa.ArrowInvalid, [(_GARBAGE, "bytes that are no IPC stream (pyarrow: ArrowInvalid)")]),
+        (StopIteration, [(_schema_only(server, method), "an IPC stream that ends after its schema (no batch)")]),
+    ]
+    if route == 2 and no_token:
+        groups.insert(0, (None, [(_exchange_request(no_token=True), "a well-formed batch without state token")]))
+    groups.sort(key=lambda g: 0 if (cls is not None and g[0] is not None and issubclass(cls, g[0])) else 1)
+    for _c, bodies in groups:
+        for body, what in bodies:
+            # a cut that leaves the whole batch (only the optional end-of-stream marker is gone) may
+            # be served: then it is a dispatched call (plain 200), never "200 + marker"
+            cut_tail = route != 2 and body is not _BAD_HEADER and what.startswith("a well-formed request cut") and len(body) >= len(valid) - 8
+            v = _judge_real(client, path, body, (400, 200) if cut_tail else (400,), what)
+            if v:
+                return v
+    return None
+
+
+def _real_wrong_content_type(route: int, ctype, stream_method: bool) -> str | None:  # noqa: ANN001
+    """The counterexample's Content-Type when an HTTP client can send it, and in any case
+    `text/plain` on the same route and method."""
+    server, client = _battery_client(False)
+    method = _STREAM_NAME if stream_method else _UNARY_NAME
+    body = _exchange_request(False) if route == 2 else _wire_request(server, method)
+    sendable = ctype is None or (ctype.isascii() and ctype.isprintable() and ctype == ctype.strip())
+    for ct in ([ctype] if sendable else []) + ["text/plain"]:
+        try:
+            v = _judge_real(client, _paths(route, method), body, (415,), f"Content-Type {ct!r}", ctype=ct)
+        except (ValueError, UnicodeError):
+            continue
+        if v:
+            return v
+    return None
+
+
+def _real_unknown_method(route: int, mname: str) -> str | None:
+    """The counterexample's name when it is one routable path segment, and in any case a plain
+    unknown name on the same route (a real request with a real answer either way)."""
+    server, client = _battery_client(False)
+    routable = bool(mname) and mname.isascii() and mname.replace("_", "a").isalnum() and mname not in server.methods.keys()
+    for name in ([mname] if routable else []) + ["nosuch"]:
+        path = _paths(route, name)
+        body = _exchange_request(False) if route == 2 else _wire_request(server, _UNARY_NAME if route == 0 else _STREAM_NAME)
+        r = _post_real(client, path, body)
+        if r.status_code == 405 or (r.status_code == 404 and r.headers.get("content-type", "").startswith("application/json")):
+            continue  # answered by Falcon's router / another route, not by an RPC resource (outside)
+        v = _judge_real(client, path, body, (404,), f"the unknown method {name!r}")
+        if v:
+            return v
+    return None
+
+
+def _real_ladder(route: int, stream_method: bool, step: int, kind: int, ver: int) -> str | None:
+    """The request-validation rows on the real apps.  The rows of the counterexample's step come
+    first, then every other row of the route (a fixed, real sweep: whatever it reports is a real
+    answer of the real app that the property text forbids)."""
+    method = _STREAM_NAME if stream_method else _UNARY_NAME
+    server, client = _battery_client(False)
+    vserver, vclient = _battery_client(True)
+    if (route == 0) == stream_method:
+        body = _exchange_request(False) if route == 2 else _wire_request(server, method)
+        return _judge_real(client, _paths(route, method), body, (400,), f"the {'stream' if stream_method else 'unary'} method {method!r} on the {('unary', 'init', 'exchange')[route]} route")
+    if route == 2:
+        return _real_malformed_bodies(2, None, no_token=True) or _real_failing_call(1)
+    path = _paths(route, method)
+    mk = lambda **k: _wire_request(server, method, **k)  # noqa: E731
+    vmk = lambda **k: _wire_request(vserver, method, **k)  # noqa: E731
+    rows = {
+        _STEP_NAME: [(client, mk(md_method="other"), (400,), "vgi_rpc.method naming another method than the path")],
+        _STEP_NONE: [
+            (vclient, vmk(proto=None), (400,), "no vgi_rpc.protocol_version although the server declares 1.2.0"),
+            (vclient, vmk(proto=b"9.9.9"), (400,), "vgi_rpc.protocol_version 9.9.9 although the server declares 1.2.0"),
+            (vclient, vmk(proto=b"x"), (400,), "a malformed vgi_rpc.protocol_version"),
+            (vclient, vmk(proto=b"1.2.3"), "ok", "a compatible vgi_rpc.protocol_version"),
+        ],
+        _STEP_DESER: [(client, mk(member="PURPLE"), (400,), "an enum parameter naming no member")],
+        _STEP_SIG: [(client, mk(drop="a"), (400,), "a required parameter missing"), (client, mk(extra=True), (400,), "an unexpected parameter")],
+        _STEP_PARAMS: [(client, mk(a=None), (400,), "null for a non-optional parameter")],
+        _STEP_READ: [
+            (client, mk(md_method=None), (400,), "no vgi_rpc.method metadata"),
+            (client, mk(req_version=None), (400,), "no vgi_rpc.request_version metadata"),
+            (client, mk(req_version=b"999"), (400,), "an unsupported vgi_rpc.request_version"),
+            (client, mk(), "ok", "a well-formed request"),
+        ],
+    }
+    order = [step] + [s for s in rows if s != step]
+    for s in order:
+        for c, body, want, what in rows.get(s, []):
+            v = _judge_real(c, path, body, want, what)
+            if v:
+                return v
+        if s == _STEP_READ:
+            v = _real_malformed_bodies(route, _exc_class(kind) if step == _STEP_READ else None)
+            if v:
+                return v
+    return _real_failing_call(route)
+
+
+def _real_failing_call(route: int) -> str | None:
+    """A dispatched call that fails is 200 + marker, never a bare 5xx (the route's own, then the other)."""
+    server, client = _battery_client(False)
+    calls = [("/bad", "bad"), ("/fedbad/init", "fedbad")]
+    for path, m in (calls if route == 0 else calls[::-1]):
+        v = _judge_real(client, path, _wire_request(server, m), (500,), "a well-formed call whose method raises")
+        if v:
+            return v
+    return None
+
+
+# ---------------------------------------------------------------------------
+# (g) unary / init routes: the REAL `_read_request` over a pyarrow.ipc that fails on the request's bytes
+# ---------------------------------------------------------------------------
+
+from vgi_rpc.rpc import _wire as _wire_mod  # noqa: E402
+from vgi_rpc.utils import IpcValidation  # noqa: E402
+
+# What pyarrow raises while decoding the request's OWN bytes (real byte strings for each are in the
+# replay): ArrowInvalid (no IPC stream), ArrowIOError = OSError (bad message header, a body that
+# stops inside a message), StopIteration (the stream ends before a batch).
+_G_EXC = [pa.ArrowInvalid, OSError, StopIteration]
+_NG = len(_G_EXC)
+_GOUT = {"stage": 0, "kind": 0, "method": ""}
+_G_STAGES = ["opening the stream", "reading the request batch", "draining to the end of the stream"]
+
+
+def _g_exc(i: int) -> BaseException:
+    for k in range(_NG):
+        if i == k:
+            return _G_EXC[k]("malformed IPC")
+    raise HarnessModelError("no such decoder outcome")
+
+
+class _GReader:
+    schema = pa.schema([])
+
+    def __init__(self) -> None:
+        self.reads = 0
+
+    def read_next_batch_with_custom_metadata(self):  # noqa: ANN201
+        self.reads += 1
+        if self.reads == 1:
+            if _GOUT["stage"] == 1:
+                raise _g_exc(_GOUT["kind"])
+            md = pa.KeyValueMetadata({RPC_METHOD_KEY: _GOUT["method"].encode(), REQUEST_VERSION_KEY: REQUEST_VERSION})
+            return pa.RecordBatch.from_pylist([], schema=pa.schema([])), md
+        if _GOUT["stage"] == 2 and self.reads == 2:
+            raise _g_exc(_GOUT["kind"])
+        raise StopIteration
+
+    def read_next_batch(self):  # noqa: ANN201
+        return self.read_next_batch_with_custom_metadata()[0]
+
+    def __getattr__(self, name: str):
+        raise HarnessModelError(f"RecordBatchStreamReader.{name} is not modelled")
+
+
+class _GIpc:
+    @staticmethod
+    def open_stream(*a, **k):  # noqa: ANN002, ANN003, ANN205
+        if _GOUT["stage"] == 0:
+            raise _g_exc(_GOUT["kind"])
+        return _GReader()
+
+    def __getattr__(self, name: str):
+        raise HarnessModelError(f"ipc.{name}: only reading the request is modelled")
+
+
+_g_read_request = reglobalize(_wire_mod._read_request, ipc=_GIpc())
+_G_STUBS = dict(_VALIDATION_STUBS, _read_request=_g_read_request)
+_g_unary = reglobalize(_app_unary._run_unary_sync, **_G_STUBS)
+_g_init = reglobalize(_app_stream._run_stream_init_sync, **_G_STUBS)
+
+
+class _GServer(_Server):
+    ipc_validation = IpcValidation.FULL
+
+
+class _GApp(_FakeApp):
+    _server = _GServer()
+
+    def _unary_sync(self, method, info, stream):  # noqa: ANN001, ANN201
+        return _g_unary(self, method, info, stream)
+
+    def _stream_init_sync(self, method, info, stream):  # noqa: ANN001, ANN201
+        return _g_init(self, method, info, stream)
+
+
+class _GHolder:
+    _app = _GApp()
+
+
+def _replay_decoding(a: dict) -> str | None:
+    """Real bytes on the real app: a bad message header, EVERY proper prefix of a well-formed
+    request, garbage, a schema-only stream — each must be answered 400 + Arrow error body (a cut that
+    only loses the end-of-stream marker may be served as a plain 200)."""
+    return _real_malformed_bodies(a["route"], _G_EXC[a["kind"]])
+
+
+@cond(q=40, t=120, encoded=[_wire_mod._read_request, _app_unary._run_unary_sync, _app_stream._run_stream_init_sync, _resources._RpcResource.on_post, _resources._StreamInitResource.on_post],
+      stubs=["pyarrow.ipc (inside the real _read_request) := open_stream / the first read / a read while draining raises the chosen class; otherwise yields an empty well-formed request batch",
+             "_deserialize_params / _validate_call_signature / _validate_params := no-ops (never reached: the read fails)", "_set_error_response := recorder + real _set_http_status", "falcon Request/Response := attribute bags"],
+      bound="{unary, init} route x failure while opening | reading the batch | draining x {ArrowInvalid, OSError (ArrowIOError), StopIteration}",
+      replay=_replay_decoding, signature=lambda a, c: "C15:request-decoding:" + ("io-error-not-400" if _G_EXC[a["kind"]] is OSError else "decoder-error-not-400"))
+def undecodable_request_is_400(route: int, stage: int, kind: int) -> bool:
+    """
+    pre: 0 <= route <= 1 and 0 <= stage <= 2 and 0 <= kind < _NG
+    pre: not (stage == 2 and kind == 2)
+    post: _
+    """
+    # Malformed IPC => 400, whatever class pyarrow uses to say so: a truncated body or a bad message
+    # header is an ArrowIOError (= OSError), not an ArrowInvalid.  (stage 2 + StopIteration is the
+    # regular end of a well-formed stream, excluded.)  Only the request's own bytes are decoded here.
+    method = _STREAM_NAME if route == 1 else _UNARY_NAME
+    _GOUT["stage"], _GOUT["kind"], _GOUT["method"] = stage, kind, method
+    _OUT["step"] = _STEP_NONE
+    del _REC[:]
+    resp = _Resp()
+    try:
+        _POSTS[route](_GHolder(), _Req(_ARROW_CONTENT_TYPE), resp, method)
+    except HarnessModelError:
+        raise
+    except falcon.HTTPError as e:
+        code, marked, arrow = _rendered_by_app(e)
+        return _answer_verdict(code, marked, arrow, (400,)) is None
+    except Exception:  # noqa: BLE001
+        return False  # escapes the resource: Falcon's bare 500 + JSON
+    arrow = resp.content_type == _ARROW_CONTENT_TYPE and _stub_body_ok(resp)
+    return _answer_verdict(_code(resp.status), _marked(resp), arrow, (400,)) is None
+
+
+ENCODED.append(_wire_mod._read_request)
